@@ -66,6 +66,23 @@ def run_proc(args):
                 problems.append("no bestmove after go infinite / stop")
                 break
             events.append({"cmd": "analyse", "i": 0, "v": 0, "p": "%s#%d" % (proc, len(events)), "d": 0, "out": "", "proc": proc})
+        elif c[0] == "analyse_setopt":
+            # a Hash change that arrives while a search holds the tables is refused with an error message (or, if it wins the
+            # race against the search thread, carried out at once); the GUI repeats it once the engine is idle
+            nb = s.counts["bestmove"]
+            nr = s.counts["readyok"]
+            s.send("isready")                    # everything sent so far (a large table is being allocated) has been processed
+            if not s.wait_count("readyok", nr + 1, 60):
+                problems.append("no readyok before the analysis")
+                break
+            s.send("go infinite")
+            time.sleep(c[1] / 1000.0)
+            s.send("setoption name Hash value %d" % c[2])
+            s.send("stop")
+            if not s.wait_count("bestmove", nb + 1, 60):
+                problems.append("no bestmove after go infinite / setoption / stop")
+                break
+            events.append({"cmd": "analyse", "i": 0, "v": 0, "p": "%s#%d" % (proc, len(events)), "d": 0, "out": "", "proc": proc})
         elif c[0] == "latestop":
             s.send("stop")                       # no search is running: the previous go has been answered
             events.append({"cmd": "idlestop", "i": 0, "v": 0, "p": "", "d": 0, "out": "", "proc": proc})
@@ -126,6 +143,12 @@ def main():
         elif i % 4 == 2:
             H = H + [("latestop",)]
         hashv = rng.choice([256, 256, 2, 16])
+        if i % 8 == 3:
+            # the size in force at the end is first asked for during an analysis (refused or not), then repeated when idle
+            # (smallest table and a search long enough to fill it: the size in force shows in fill and node counts)
+            hashv = 1
+            H = [("setoption", "Hash", 64), ("position", rng.choice(POSITIONS)), ("analyse_setopt", 150, hashv)]
+            S = [("position", rng.choice(POSITIONS)), ("go", 7)]
         setup = [] if hashv == 256 else [("setoption", "Hash", hashv)]
         restore = [("setoption", "Hash", hashv), ("setoption", "Move Overhead", 0)]
         for prof, b in bins.items():
